@@ -271,6 +271,7 @@ func runC02(c *Ctx) {
 		n = 40000
 	}
 	undeclaredSymbols(c)
+	undeclaredInMemory(c)
 	for i := 0; i < n; i++ {
 		g := newScenGen(r, r.Intn(3))
 		a := baseCase(g, r.Intn(3))
@@ -1001,6 +1002,54 @@ func undeclaredSymbols(c *Ctx) {
 			sx := "(case (bytes " + hx(dT) + ") (expect " + hxs("reject") + "))"
 			res := execCase("WIRE", sx)
 			c.Case("WIRE", c.NewID("undeclared"), sx, res)
+		}
+	}
+}
+
+// undeclaredInMemory: the same situation without any bytes — a token assembled through the
+// public constructors whose authority block was built over a longer table than the token is
+// given (NewBlockBuilder + New), used as the constructors returned it.
+func undeclaredInMemory(c *Ctx) {
+	pub, priv := rootKeys()
+	for pad := 1; pad <= 3; pad++ {
+		long := &datalog.SymbolTable{}
+		for i := 0; i < pad; i++ {
+			long.Insert(fmt.Sprintf("pad%d", i))
+		}
+		bb := biscuit.NewBlockBuilder(long)
+		bb.AddFact(biscuit.Fact{Predicate: Pred{Name: "role", Terms: []Term{S("placeholder")}}.ToBiscuit()})
+		rd := &detRand{NewRng(uint64(300 + pad))}
+		tok, err := biscuit.New(rd, priv, &datalog.SymbolTable{}, bb.Build())
+		c.Eval()
+		if err != nil {
+			c.Count("undeclared-inmemory:refused-at-New")
+			continue
+		}
+		authorize := func(t *biscuit.Biscuit) string {
+			az, err := t.AuthorizerFor(biscuit.WithSingularRootPublicKey(pub), biscuit.WithWorldOptions(datalog.WithMaxDuration(20*time.Second)))
+			if err != nil {
+				return "rejected"
+			}
+			az.AddPolicy(Policy{Allow: true, Queries: []Rule{{Head: Pred{Name: "query"}, Body: []Pred{{Name: "role", Terms: []Term{S("superuser")}}}}}}.ToBiscuit())
+			return authErrClass(az.Authorize())
+		}
+		resT := authorize(tok)
+		nb := tok.CreateBlock()
+		for i := 0; i < pad; i++ { // the token's table holds one string: position pad is the undeclared index
+			name := fmt.Sprintf("filler%d", i)
+			if i == pad-1 {
+				name = "superuser"
+			}
+			nb.AddFact(biscuit.Fact{Predicate: Pred{Name: "owner", Terms: []Term{S(name)}}.ToBiscuit()})
+		}
+		resTB := "append-refused"
+		if tb, err := tok.Append(rd, nb.Build()); err == nil {
+			resTB = authorize(tb)
+		}
+		c.Count("undeclared-inmemory:" + resT + "->" + resTB)
+		if resT != "ok" && resTB == "ok" {
+			c.Violate("C02/undeclared-symbol:in-memory", fmt.Sprintf("a token built with New over a shorter table than its block was built on is %s, and accepted once a block declaring more symbols is appended", resT),
+				map[string]interface{}{"pad": pad, "T": tok.String()})
 		}
 	}
 }
